@@ -37,7 +37,7 @@ var defects = []string{"import-cycle", "import-self", "include-cycle", "typedef-
 	"dangling-uses-augment-absolute", "illegal-config-in-remote-grouping", "illegal-default-in-remote-grouping",
 	"dangling-unique-last", "dangling-unique-inner", "dangling-unique-skips-choice", "dangling-unique-via-list", "dangling-unique-non-leaf",
 	"odd-extension-prefix", "odd-extension-name", "illegal-grouping-uses-deprecated-grouping", "include-self", "dangling-import-include-chain", "illegal-xpath-prefix-twin",
-	"odd-feature-chain-into-other-module", "odd-first-use-of-missing-module-when-built", "odd-deviations-that-do-not-commute", "odd-scoped-grouping-across-submodules", "odd-status-chain-across-submodules"}
+	"odd-feature-chain-into-other-module", "odd-first-use-of-missing-module-when-built", "odd-deviations-that-do-not-commute", "odd-scoped-grouping-across-submodules", "odd-status-chain-across-submodules", "dangling-type-include-chain", "dangling-uses-include-chain"}
 
 func str(s string) *sg.TypeSpec { return &sg.TypeSpec{Name: s} }
 
@@ -99,7 +99,8 @@ func inject(mods []*sg.Mod, d string, pick func(n int) int) {
 		// submodules are appended by the caller through extra modules
 	case "include-self", "dangling-import-include-chain":
 		host.Includes = append(host.Includes, "sa")
-	case "illegal-xpath-prefix-twin", "odd-feature-chain-into-other-module", "odd-deviations-that-do-not-commute", "odd-scoped-grouping-across-submodules", "odd-status-chain-across-submodules":
+	case "illegal-xpath-prefix-twin", "odd-feature-chain-into-other-module", "odd-deviations-that-do-not-commute", "odd-scoped-grouping-across-submodules", "odd-status-chain-across-submodules",
+		"dangling-type-include-chain", "dangling-uses-include-chain":
 		// handled by the caller (extra modules)
 	case "typedef-cycle-used":
 		m.Typedefs = append(m.Typedefs, &sg.Typedef{Name: "cyc-a", Type: str("cyc-b")}, &sg.Typedef{Name: "cyc-b", Type: str("cyc-a")})
@@ -395,6 +396,22 @@ func extraMods(c Case) []*sg.Mod {
 			za.Nodes = []*sg.Node{{Kind: "container", Name: "zsa-top", Status: s1.Groupings[0].Status, Kids: []*sg.Node{{Kind: "uses", Name: "zg"}}}}
 		}
 		return append(append([]*sg.Mod(nil), mods...), za, s1, s2)
+	case "dangling-type-include-chain", "dangling-uses-include-chain":
+		// a submodule sees the definitions of the submodules it includes itself, not of those they include in turn: the
+		// first of a chain of three names a typedef (a grouping) of the third - refused, whichever submodule is read first
+		zm := &sg.Mod{Name: "zic", Prefix: "zic", Includes: []string{"zic-a", "zic-b", "zic-c"}}
+		sa := &sg.Mod{Name: "zic-a", Prefix: "zic", BelongsTo: "zic", Includes: []string{"zic-b"}}
+		sb := &sg.Mod{Name: "zic-b", Prefix: "zic", BelongsTo: "zic", Includes: []string{"zic-c"}, Typedefs: []*sg.Typedef{{Name: "b-type", Type: str("c-type")}}}
+		sc := &sg.Mod{Name: "zic-c", Prefix: "zic", BelongsTo: "zic", Typedefs: []*sg.Typedef{{Name: "c-type", Type: str("string")}},
+			Groupings: []*sg.Grouping{{Name: "c-group", Kids: []*sg.Node{{Kind: "leaf", Name: "cg", Type: str("string")}}}}}
+		top := &sg.Node{Kind: "container", Name: "zic-top"}
+		if c.Defect == "dangling-type-include-chain" {
+			top.Kids = []*sg.Node{{Kind: "leaf", Name: "x", Type: str("c-type")}, {Kind: "leaf", Name: "y", Type: str("b-type")}}
+		} else {
+			top.Kids = []*sg.Node{{Kind: "uses", Name: "c-group"}}
+		}
+		sa.Nodes = []*sg.Node{top}
+		return append(append([]*sg.Mod(nil), mods...), zm, sa, sb, sc)
 	case "belongs-to-missing":
 		return append(append([]*sg.Mod(nil), mods...), &sg.Mod{Name: "orphan", Prefix: "own", BelongsTo: "no-such-module"})
 	case "illegal-config-in-remote-grouping", "illegal-default-in-remote-grouping":
